@@ -231,6 +231,15 @@ def _unit_string(rng):
     return str(rng.randint(0, 10 ** rng.randint(1, 30))) + rng.choice('KkMmGgTt%') + rng.choice(['', 'B', 'b'])
 
 
+def _time_string(rng):
+    """Mostly valid durations in every spelling of the unit (utils.to_seconds)."""
+    return (rng.choice(['', '', ' ', '\n', '+', '-']) +
+            str(rng.choice([0, 1, 7, 30, 59, 60, 61, 100, 1440, 86400, rng.randint(0, 10 ** rng.randint(1, 12))])) +
+            rng.choice(['', '', ' ', '_']) +
+            rng.choice(['s', 'S', 'm', 'M', 'h', 'H', 'd', 'D', 's', 'd', '', 'w', 'ms', 'ﬆ', '%']) +
+            rng.choice(['', '', '\n', ' ']))
+
+
 def gen_case(rng, pid, tier):
     malformed = rng.random() < 0.2
     cells = ['c1'] if rng.random() < 0.6 else ['c1', 'c2']
@@ -343,8 +352,8 @@ def gen_case(rng, pid, tier):
         existing = [k[1] for k in store if k[0] == cell]
         mode = rng.choice(['small', 'boundary', 'boundary', 'boundary', 'big'])
         if r < 0.06:
-            fn = rng.choice(['cpu', 'size', 'kb', 'mb'])
-            ops.append(['unit', fn, _unit_string(rng)])
+            fn = rng.choice(['cpu', 'size', 'kb', 'mb', 'sec'])
+            ops.append(['unit', fn, _time_string(rng) if fn == 'sec' and rng.random() < 0.6 else _unit_string(rng)])
             continue
         part = rng.choice(pnames[cell] + (['px'] if rng.random() < 0.04 else []))
         traits = rng.sample(TRAITS, rng.choice([0, 1, 1, 2, 2, 3]))
@@ -749,7 +758,7 @@ def run_impl(case, pid):
             if kind == 'unit':
                 _, fn, s = op
                 f = {'cpu': utils.cpu_units, 'size': utils.size_to_bytes, 'kb': utils.kilobytes,
-                     'mb': utils.megabytes}[fn]
+                     'mb': utils.megabytes, 'sec': utils.to_seconds}[fn]
                 try:
                     obs = 'ok:' + bigstr(f(s))
                 except ValueError:
